@@ -182,9 +182,8 @@ class Ctx(object):
                         for j, o in enumerate(st['rv']['ops']):
                             env[('upvar', cb.key, j)] = fr.lift(self.eng.operand(b, blk['i'], si, o))
                         if not st['place']['p']:
-                            it = self.eng.applied_to(b, blk['i'], st['place']['l'])
-                            if it is not None:
-                                env[('param', cb.key, 2)] = fr.lift(mk_elem(self.eng, it))
+                            for pi, pt in self.eng.applied_env(b, blk['i'], st['place']['l']).items():
+                                env[('param', cb.key, pi)] = fr.lift(pt)
                         f2 = Frame(self, cb, env, fr.site + ((b.key, blk['i']),), fr, blk['i'], 'closure')
                         out.append(f2)
                         work.append((f2, d - 1))
@@ -268,10 +267,8 @@ class Ctx(object):
         for j, o in enumerate(s['rv']['ops']):
             env[('upvar', cbody.key, j)] = self.eng.operand(pb, bb, si, o)
         if not s['place']['p']:
-            it = self.eng.applied_to(pb, bb, s['place']['l'])
-            if it is not None:
-                from .terms import mk_elem
-                env[('param', cbody.key, 2)] = mk_elem(self.eng, it)
+            for pi, pt in self.eng.applied_env(pb, bb, s['place']['l']).items():
+                env[('param', cbody.key, pi)] = pt
         return pb, bb, self.eng.subst(term, env, ())
 
     def args(self, body, bb):
